@@ -1538,6 +1538,34 @@ impl TreeProp {
                 });
             }
         }
+        // depths 4 and 5, "rewrite" alphabet: whole-width and near-whole-width range writes over values that are
+        // mostly already there, with sparse deletions / single writes in between (the shape that optimised
+        // re-hashing gets wrong), histories up to length 4 on the in-memory backends
+        if with_plain {
+            for d in [4usize, 5] {
+                let c = 1u64 << d;
+                let pat = |n: u64| -> Vec<u8> { (0..n).map(|k| if k % 2 == 0 { 1 } else { 2 }).collect() };
+                let mut ops = vec![TreeOp::Range(0, pat(c)), TreeOp::Range(0, pat(c - 1)), TreeOp::Range(2, pat(c - 2)), TreeOp::Range(c / 2, pat(c / 2)), TreeOp::Range(0, pat(c / 2 + 2))];
+                for i in [1, c / 4 + 1, c / 2 - 2, c / 2 + 1, c - 2] {
+                    ops.push(TreeOp::Delete(i));
+                }
+                for i in [0, c / 2 - 1, c - 1] {
+                    ops.push(TreeOp::Set(i, 2));
+                }
+                ops.push(TreeOp::Set(c / 4, 1));
+                ops.push(TreeOp::Append(1));
+                if with_batch {
+                    ops.push(TreeOp::Batch(0, pat(c), vec![]));
+                    ops.push(TreeOp::Batch(0, pat(c - 1), vec![c - 1]));
+                    ops.push(TreeOp::Batch(2, pat(c - 2), vec![0, 1]));
+                }
+                plans.push(ExploreCfg {
+                    focus: f, depth: d, ops,
+                    backends: vec![(Kind::Full, 4), (Kind::Optimal, 4), (Kind::Pm, if q { 1 } else { 2 })],
+                    nodedup_len: 1, max_len: 4, positions: all(d), full_obs: true, label: format!("depth{d}.rewrite"),
+                });
+            }
+        }
         // depth 20: position alphabet, sparse observation
         {
             let pos: Vec<u64> = POS20.to_vec();
@@ -1573,6 +1601,7 @@ impl TreeProp {
                     ops.push(TreeOp::Batch(c - 1, vec![1], vec![c - 2]));
                 }
             }
+            ops.extend_from_slice(&extra); // C15: compute_root and close/reopen at depth 20 too
             plans.push(ExploreCfg {
                 focus: f, depth: 20, ops,
                 backends: vec![(Kind::Optimal, 2), (Kind::Pm, 2), (Kind::Rln, 2)],
